@@ -262,7 +262,7 @@ theorem keyedWalk_diffs_ge (cfg : Cfg) (p : Path) (sa oa : Val) : ∀ (xs : List
       rw [hf] at h
       simp only at h
       have hl := kerase_length k sr
-      cases hcl : classifyItem cfg p (p ++ [if i = j then PSeg.idx i else PSeg.idx2 i j]) (p ++ [.idx i]) sa oa x y with
+      cases hcl : classifyItem cfg p (p ++ [if i = j then PSeg.idx i else PSeg.idx2 i j]) (p ++ [if i = j then PSeg.idx i else PSeg.idx2 i j]) sa oa x y with
       | emit r0 s =>
         rw [hcl] at h
         simp only at h
@@ -563,8 +563,8 @@ theorem keyedWalk_keyed_exact (cfg : Cfg) (h : NoOpts cfg) (hd : cfg.direct = fa
         (eraseKey (key0 x) orr) (i + 1) hx.2 hix2 ho'
       have hpair : ∃ r1, keyedWalk cfg p sa oa i (x :: xs) ((x :: xs).map key0) sr orr = .ok (r1 ++ r') ∧
           (r1.diffs = 0 ↔ eqv x y) := by
-        have hce := classifyItem_exactP h p (p ++ [if i = j then PSeg.idx i else PSeg.idx2 i j]) (p ++ [.idx i]) sa oa x y
-        cases hcl : classifyItem cfg p (p ++ [if i = j then PSeg.idx i else PSeg.idx2 i j]) (p ++ [.idx i]) sa oa x y with
+        have hce := classifyItem_exactP h p (p ++ [if i = j then PSeg.idx i else PSeg.idx2 i j]) (p ++ [if i = j then PSeg.idx i else PSeg.idx2 i j]) sa oa x y
+        cases hcl : classifyItem cfg p (p ++ [if i = j then PSeg.idx i else PSeg.idx2 i j]) (p ++ [if i = j then PSeg.idx i else PSeg.idx2 i j]) sa oa x y with
         | emit r0 s =>
           rw [hcl] at hce
           exact ⟨r0, by simp [keyedWalk, hf, hcl, hr'], hce⟩
